@@ -377,7 +377,7 @@ class LayoutSegment:
         if len(seg) == 3:
             if not isinstance(self.offs, int):
                 raise TypeError(self.offs)
-            if self.sc <= 0:
+            if self.sc < 0:
                 raise ValueError(seg)
             t = seg[2]
             if isinstance(t, bytes):
